@@ -6,7 +6,8 @@ only = sys.argv[1:]
 t0=time.time()
 fams = mixins.families()
 allobl=[]
-for fam in fams[:1]:
+import os
+for fam in (fams if os.environ.get("FAM") is None else [f for f in fams if f.cls == os.environ["FAM"]]):
     for key, spec in fam.specs.items():
         if only and not any(o in key[0] or o==key[1] for o in only): continue
         fi, obl, fails = heapworld.verify_spec(spec)
